@@ -206,13 +206,6 @@ func (ex *Exec) callModular(fi *FuncInfo, recv *Value, args []Value, st *State, 
 	for _, m := range con.Modifies {
 		ex.havocModifies(fi, m, st, pre, bind, call)
 	}
-	// results
-	var res []Value
-	for i := 0; i < sig.Results().Len(); i++ {
-		v := freshValue(fi.Obj.Name()+"!res", sig.Results().At(i).Type())
-		st.assumeValid(v)
-		res = append(res, v)
-	}
 	if con.readsClock {
 		ex.advanceClock(st)
 	}
@@ -236,6 +229,13 @@ func (ex *Exec) callModular(fi *FuncInfo, recv *Value, args []Value, st *State, 
 		st.assume(mkCmp("le", st.alloc, na))
 		// returned references may be fresh
 		st.alloc = na
+	}
+	// results
+	var res []Value
+	for i := 0; i < sig.Results().Len(); i++ {
+		v := freshValue(fi.Obj.Name()+"!res", sig.Results().At(i).Type())
+		st.assumeValid(v)
+		res = append(res, v)
 	}
 	ex.bindResults(fi, bind, res)
 	ex.assuming++
